@@ -328,7 +328,7 @@ PURE_PREDS = ('big', 'zst', 'needs_drop')
 
 
 class State:
-    __slots__ = ('env', 'fenv', 'events', 'counter', 'pure', 'visits', 'blocks', 'mem', 'stack', 'body', 'depth', 'decided')
+    __slots__ = ('env', 'fenv', 'events', 'counter', 'pure', 'visits', 'blocks', 'mem', 'stack', 'body', 'depth', 'decided', 'selfty')
 
     def __init__(self):
         self.env = {}     # local key -> value; key = n at depth 0, (n, depth) inside a spliced callee
@@ -342,6 +342,7 @@ class State:
         self.stack = []   # saved caller frames while a crate-local helper is spliced in
         self.body = None  # body of the current frame (None = the evaluator's root body)
         self.depth = 0
+        self.selfty = None  # concrete Self of the provided trait method being spliced, if any
         self.decided = {}  # switch discriminant value -> ('eq', v) | ('ne', frozenset(values)) already taken on this path
 
     def clone(self):
@@ -358,6 +359,7 @@ class State:
         s.body = self.body
         s.depth = self.depth
         s.decided = dict(self.decided)
+        s.selfty = self.selfty
         return s
 
 
@@ -421,6 +423,10 @@ ATOMIC_FUNCS = {
 MAX_INLINE_DEPTH = 3
 
 
+PTR_WRITERS = ('std::mem::replace', 'std::mem::swap', 'std::mem::take', 'std::ptr::write', 'std::ptr::swap', 'std::ptr::replace',
+               'std::ptr::copy_nonoverlapping', 'std::ptr::copy', 'std::ptr::drop_in_place', 'std::option::Option::take',
+               'std::option::Option::replace', 'std::option::Option::insert', 'std::option::Option::get_or_insert_with',
+               'std::mem::MaybeUninit::write', 'std::cell::UnsafeCell::get_mut')
 HANDLE_NAMES = ('Sender', 'Receiver', 'AsyncSender', 'AsyncReceiver')
 
 
@@ -432,7 +438,9 @@ def inlinable(body):
     if j.get('impl_trait'):
         # trait methods are entry points of their own, except the handles' Clone impls, which other members of the clone
         # family may be written in terms of (`clone_async` = `self.clone().to_async()`)
-        if not (canon(str(j.get('impl_trait'))).endswith('Clone') and any(body.key.startswith('<%s<T> as ' % h) for h in HANDLE_NAMES)):
+        tr = str(j.get('impl_trait'))
+        local_trait = not tr.startswith(('std::', 'core::', 'alloc::', 'futures_core::', 'lock_api::'))
+        if not local_trait and not (canon(tr).endswith('Clone') and any(body.key.startswith('<%s<T> as ' % h) for h in HANDLE_NAMES)):
             return False
     if canon(body.key) in ATOMIC_FUNCS:
         return False
@@ -558,6 +566,10 @@ class Evaluator:
                 if bv[0] == 'downcast' and bv[2] == 'Continue' and pl[2] == '0' and bv[1][0] == 'call' and bv[1][2] == 'std::ops::Try::branch' and bv[1][3]:
                     # `x?` on an Option/Result: the Continue payload is the Some/Ok payload of x
                     return ('field', ('downcast', try_operand(bv[1]), try_ok_variant(bv[1])), '0')
+                if bv[0] == 'downcast' and bv[2] == 'Some' and pl[2] == '0' and bv[1][0] == 'call' and len(bv[1][3]) == 2 \
+                        and bv[1][2] in ('core::num::checked_sub', 'core::num::checked_add'):
+                    # the Some payload of `a.checked_sub(b)` is a - b
+                    return ('bin', 'Sub' if bv[1][2].endswith('sub') else 'Add', bv[1][3][0], bv[1][3][1])
                 return ('field', bv, pl[2])
             if pl in st.mem:
                 return st.mem[pl]
@@ -684,7 +696,17 @@ class Evaluator:
         if k == 'rawptr':
             return self.mkref(st, 'rawptr', self.place(st, rv['p']))
         if k == 'bin':
-            return ('bin', rv['op'], self.operand(st, rv['a']), self.operand(st, rv['b']))
+            a_ = self.operand(st, rv['a'])
+            b_ = self.operand(st, rv['b'])
+            if rv['op'] in ('Eq', 'Ne', 'Lt', 'Le', 'Gt', 'Ge') and a_[0] == 'const' and b_[0] == 'const' and a_[1] == b_[1] \
+                    and a_[1] in ('u8', 'u16', 'u32', 'u64', 'usize', 'i8', 'i16', 'i32', 'i64', 'isize', 'bool'):
+                try:
+                    x, y = int(a_[2]), int(b_[2])
+                    r_ = {'Eq': x == y, 'Ne': x != y, 'Lt': x < y, 'Le': x <= y, 'Gt': x > y, 'Ge': x >= y}[rv['op']]
+                    return ('const', 'bool', '1' if r_ else '0')
+                except (ValueError, TypeError):
+                    pass
+            return ('bin', rv['op'], a_, b_)
         if k == 'un':
             a = self.operand(st, rv['a'])
             if rv['op'] == 'Not' and a[0] == 'const' and a[1] == 'bool':
@@ -756,6 +778,9 @@ class Evaluator:
         cand = facts.bodies.get(fn['path'])
         if cand is None and fn.get('resolved_local'):
             cand = facts.bodies.get(fn.get('resolved'))
+        if cand is None and fn.get('trait') and st.selfty and str(fn.get('full', '')).startswith('<Self as '):
+            # a required method called from a provided method of a crate-private trait, spliced for a concrete Self
+            cand = facts.bodies.get('<' + st.selfty + fn['full'][len('<Self'):])
         if cand is None or not inlinable(cand):
             return None
         cur = st.body or self.body
@@ -799,6 +824,8 @@ class Evaluator:
                 st.body = fr['body']
                 st.visits = fr['visits']
                 st.depth = d - 1
+                if 'selfty' in fr:
+                    st.selfty = fr['selfty']
                 if fr.get('wrap'):
                     rv = wrap_value(fr['wrap'], rv)
                 self.assign(st, fr['dest'], rv, t.get('at'), fr['bb'])
@@ -901,6 +928,7 @@ class Evaluator:
                         work.append((t['target'], sF))
                         if r_ is not None:
                             st.events.append(Event('br', idx=len(st.events), label=r_[0], outcome='T' if r_[1] else 'F', val=cond, at=t.get('at'), bb=b, taken=(None, ['0'])))
+                        st.events.append(Event('inline', idx=len(st.events), name=cb.key, args=(args[1],), at=t.get('at'), bb=b, fn=None, extra={'body': cb.key}))
                         st.stack.append({'body': st.body, 'visits': st.visits, 'dest': t['dest'], 'target': t['target'], 'bb': b, 'wrap': 'Some'})
                         st.depth += 1
                         st.body = cb
@@ -924,6 +952,28 @@ class Evaluator:
                         self.assign(st, t['dest'], a0[3][0], t.get('at'), b)
                         b = t['target']
                         continue
+                if args and t.get('target') is not None and args[0][0] == 'agg' and args[0][2] in ('Some', 'None', 'Ok', 'Err') \
+                        and args[0][1].endswith(('option::Option', 'result::Result')):
+                    # closure-free combinators on a value whose variant is known on this path
+                    x = args[0]
+                    pay = x[3][0] if x[3] else None
+                    folded = None
+                    if name == OPT + '::ok_or' and len(args) == 2:
+                        folded = ('agg', RES, 'Ok', (pay,), ()) if x[2] == 'Some' else ('agg', RES, 'Err', (args[1],), ())
+                    elif name == OPT + '::unwrap_or' and len(args) == 2:
+                        folded = pay if x[2] == 'Some' else args[1]
+                    elif name == RES + '::ok':
+                        folded = ('agg', OPT, 'Some', (pay,), ()) if x[2] == 'Ok' else ('agg', OPT, 'None', (), ())
+                    elif name == RES + '::err':
+                        folded = ('agg', OPT, 'Some', (pay,), ()) if x[2] == 'Err' else ('agg', OPT, 'None', (), ())
+                    elif name in (RES + '::is_ok', RES + '::is_err'):
+                        folded = ('const', 'bool', '1' if (x[2] == 'Ok') == name.endswith('is_ok') else '0')
+                    elif name == OPT + '::or' and len(args) == 2 and x[2] == 'Some':
+                        folded = x
+                    if folded is not None:
+                        self.assign(st, t['dest'], folded, t.get('at'), b)
+                        b = t['target']
+                        continue
                 if name in ('std::option::Option::is_some', 'std::option::Option::is_none') and args and t.get('target') is not None:
                     a0 = args[0]
                     if a0[0] in ('ref', 'rawptr') and len(a0) > 2 and a0[2] is not None:
@@ -941,8 +991,10 @@ class Evaluator:
                     b = t['target']
                     continue
                 if callee is not None and t.get('target') is not None:
-                    st.events.append(Event('inline', idx=len(st.events), name=name, args=args, at=t.get('at'), bb=b, fn=fn))
-                    st.stack.append({'body': st.body, 'visits': st.visits, 'dest': t['dest'], 'target': t['target'], 'bb': b})
+                    st.events.append(Event('inline', idx=len(st.events), name=name, args=args, at=t.get('at'), bb=b, fn=fn, extra={'body': callee.key}))
+                    st.stack.append({'body': st.body, 'visits': st.visits, 'dest': t['dest'], 'target': t['target'], 'bb': b, 'selfty': st.selfty})
+                    if fn and fn.get('trait') and fn.get('args') and callee.key == fn.get('path') and fn['args'][0] != 'Self':
+                        st.selfty = fn['args'][0]
                     st.depth += 1
                     st.body = callee
                     st.visits = {}
@@ -1002,7 +1054,7 @@ class Evaluator:
                 listed = [val for val, _ in targets]
                 # the same (immutable) value was already branched on earlier on this path: stay consistent
                 prev = None
-                dkey = self.imm_norm(d)
+                dkey = self.imm_norm(d, 0, st)
                 try:
                     prev = st.decided.get(dkey) if label_it else None
                 except TypeError:
@@ -1154,7 +1206,7 @@ class Evaluator:
                 cbl = self.callable_body(s2, f)
                 if cbl is not None:
                     cb, lead = cbl
-                    s2.events.append(Event('inline', idx=len(s2.events), name=cb.key, args=lead + fargs, at=t.get('at'), bb=b, fn=None))
+                    s2.events.append(Event('inline', idx=len(s2.events), name=cb.key, args=lead + fargs, at=t.get('at'), bb=b, fn=None, extra={'body': cb.key}))
                     s2.stack.append({'body': s2.body, 'visits': s2.visits, 'dest': t['dest'], 'target': t['target'], 'bb': b, 'wrap': a[2]})
                     s2.depth += 1
                     s2.body = cb
@@ -1185,7 +1237,7 @@ class Evaluator:
             work.append(item)
         return True
 
-    def imm_norm(self, v, depth=0):
+    def imm_norm(self, v, depth=0, st=None):
         """key under which a branch decision is remembered: loads of never-written fields lose their time stamp"""
         if not isinstance(v, tuple) or depth > 6:
             return v
@@ -1200,9 +1252,24 @@ class Evaluator:
             facts = self.body.facts
             if ns and cur[0] == 'deref' and facts is not None and all(facts.field_is_immutable(n) for n in ns):
                 return ('load', pl, 'imm')
+            if ns and cur[0] == 'deref' and st is not None:
+                # a field that is written somewhere: two loads on this path still agree when nothing on the path between them
+                # writes it (plain store, or a call handed a pointer to it that is known to write through pointers).  A racing
+                # writer would be a data race on a non-atomic field, which is not what a second `match` on the same field
+                # is there to observe.
+                bq = mem_base_path(pl)
+                ver = 0
+                for e in st.events:
+                    if e.kind == 'wr' and isinstance(e.place, tuple):
+                        be = mem_base_path(e.place)
+                        if be is not None and be[0] == bq[0] and mem_overlap(be, bq):
+                            ver += 1
+                    elif e.kind == 'call' and e.name in PTR_WRITERS and any(mem_mentions(a, bq) for a in e.args):
+                        ver += 1
+                return ('load', pl, ('ver', ver))
             return v
-        if v and v[0] in ('un', 'not', 'bin', 'cast'):
-            return tuple(self.imm_norm(x, depth + 1) for x in v)
+        if v and v[0] in ('un', 'not', 'bin', 'cast', 'discr'):
+            return tuple(self.imm_norm(x, depth + 1, st) for x in v)
         return v
 
     def emit(self, st, end):
@@ -1271,11 +1338,7 @@ def is_const(v, val=None):
 def ci_field_load(v):
     """('load', pfield(deref(X),'f')) where X is a ChannelInternal reference -> field name"""
     if v[0] == 'load':
-        pl = v[1]
-        if pl[0] == 'pfield' and pl[1][0] == 'deref':
-            base = pl[1][1]
-            if is_ci_ref(base):
-                return pl[2]
+        return ci_field_place(v[1])
     return None
 
 
@@ -1287,9 +1350,14 @@ def is_ci_ref(v):
     return False
 
 
+CI_GROUPS = set()  # fields of ChannelInternal that are private grouping structs (set from the facts; see roles.resolve_fields)
+
+
 def ci_field_place(pl):
-    """place pfield(deref(ci|param), f) -> f"""
+    """place pfield(deref(ci|param), f) -> f   (looking through a grouping struct: (*ci).counts.send_count -> send_count)"""
     if pl[0] == 'pfield' and pl[1][0] == 'deref' and is_ci_ref(pl[1][1]):
+        return pl[2]
+    if pl[0] == 'pfield' and pl[1][0] == 'pfield' and pl[1][2] in CI_GROUPS and pl[1][1][0] == 'deref' and is_ci_ref(pl[1][1][1]):
         return pl[2]
     return None
 
@@ -1602,6 +1670,10 @@ def classify(d, val, listed):
                 name = rest[0]
             else:
                 name = 'other(' + '|'.join(rest) + ')'
+        if inner[0] == 'call' and inner[2] == 'core::num::checked_sub' and len(inner[3]) == 2 and is_const(inner[3][1], 1) \
+                and ci_field_load(inner[3][0]) in ('send_count', 'recv_count') and name in ('Some', 'None'):
+            # `count.checked_sub(1)` is None exactly when the count is zero
+            return (('sc0' if ci_field_load(inner[3][0]) == 'send_count' else 'rc0'), 'T' if name == 'None' else 'F')
         src = inner
         if inner[0] == 'call' and inner[2] == 'std::ops::Try::branch':
             okv = try_ok_variant(inner)
@@ -1694,9 +1766,16 @@ class Facts:
                 self.bodies[b['key']] = Body(b, self)
         self.adts = {a['name']: a for a in j['adts']}
         self.impls = j['impls']
+        CI_GROUPS.clear()
+        CI_GROUPS.update(j.get('ci_groups') or [])
 
     def body(self, key):
         return self.bodies.get(key)
+
+    def adts_by_canon(self):
+        if not hasattr(self, '_adtc'):
+            self._adtc = {canon(k): v for k, v in self.adts.items()}
+        return self._adtc
 
     def immutable_fields(self):
         """field names that no body of the crate ever assigns, re-discriminates or mutably borrows (directly or as
